@@ -2,7 +2,7 @@
 import ast
 
 from ..loader import AnalysisError, attr_path, src, walk_no_nested_defs, norm_stmt, call_name
-from ..symx import SymX, classify, show, C, TRUE, FALSE, simp, is_const, UNBOUND
+from ..symx import SymX, classify, show, C, TRUE, FALSE, simp, is_const, UNBOUND, mentions
 from ..nf import SELF_NEXT, SF
 from . import kernels as K
 from . import C02, C03, shared
@@ -109,6 +109,36 @@ def r2_consumers(ctx, chk, rule="C13.2"):
             bad = [(v, fo) for v, fo in folds.items() if fo is not None and fo.kind == "OTHER" and _used(k, ("res", lid, v))]
             if bad:
                 v, fo = bad[0]
+                # "first one seen wins": `if key(e) not in seen: seen.add(key(e)); kept.append(e)` with a key that is only PART of the
+                # element - which of the elements that share the key is kept depends on the order they are written in
+                t_ = fo.term
+                firstwins = None
+                if t_[0] == "ite" and t_[1][0] == "cmp" and t_[1][1] in ("notin", "in") and t_[1][3][0] == "acc" and t_[1][3][1] == lid:
+                    seen_v = t_[1][3][2]
+                    key_ = t_[1][2]
+                    kept_ = t_[2] if t_[1][1] == "notin" else t_[3]
+                    su = L.update.get(seen_v)
+                    grows = su is not None and mentions(su, lambda x: x[0] == "cat" and x[1] == ("acc", lid, seen_v) and x[2][0] in ("list", "set") and x[2][1] == (key_,))
+                    whole_elem = key_ == ("elem", lid) or (kept_[0] == "cat" and kept_[2][0] == "list" and kept_[2][1] == (key_,))
+                    if grows and not whole_elem and mentions(key_, lambda x: x == ("elem", lid)):
+                        firstwins = key_
+                # ties decided by `e >= best - tolerance` / `e > best + tolerance` against a running optimum: "within the tolerance of" is not
+                # transitive, so which successors end up listed together depends on the order they are met in
+                def _shifted_acc(x):
+                    return x[0] == "add" and any(y[0] == "acc" and y[1] == lid for y in x[1]) and any(
+                        not (y[0] == "acc") and not (is_const(y) and y[1] == 0) for y in x[1])
+                band_c = [x for x in _subterms_of(t_) if x[0] == "cmp" and x[1] in ("<", "<=") and (_shifted_acc(x[2]) or _shifted_acc(x[3]))
+                          and not (mentions(x[2], lambda y: y[0] == "acc") and mentions(x[3], lambda y: y[0] == "acc"))]
+                if firstwins is None and band_c and t_[0] == "ite":
+                    chk.violation(rule, where, "%s.%s decides ties of `%s` by `%s`, a comparison within a tolerance of the running optimum: that relation is not transitive, so which "
+                                  "successors are listed together depends on the order in which the transitions are written" % (cls, m, v, show(band_c[0])[:100]),
+                                  expected="exact comparison of (rounded) keys", found=show(band_c[0])[:120], construct="%s.%s tolerance ties" % (cls, m))
+                    continue
+                if firstwins is not None:
+                    chk.violation(rule, where, "%s.%s keeps, of the successors that share `%s`, the one written first: which transition (which action label) survives depends on the order in "
+                                  "which the transitions are written" % (cls, m, show(firstwins)), expected="whole-list commutative fold / order-preserving filter",
+                                  found=show(fo.term)[:140], construct="%s.%s first-seen-wins" % (cls, m))
+                    continue
                 chk.undecided(rule, where, "%s.%s: `%s` is not a recognised order-insensitive fold: %s" % (cls, m, v, show(fo.term)))
                 continue
             kinds = sorted({fo.kind for fo in folds.values() if fo is not None and fo.kind not in ("LAST", "UNCHANGED")})
@@ -418,7 +448,24 @@ def _is_target_index(t):
     return t[0] == "idx" and t[1][0] == "elem" and t[2] == C(1)
 
 
+def _subterms_of(t):
+    out = []
+
+    def walk(x):
+        if isinstance(x, tuple) and x:
+            if isinstance(x[0], str):
+                out.append(x)
+            for y in x:
+                walk(y)
+    walk(t)
+    return out
+
+
 def run(ctx, chk):
+    # the same game written in another order must be ACCEPTED all the same: a validation that refuses a well-formed description for
+    # the order its transitions are written in (a running float sum compared exactly) makes solvability depend on the notation
+    from . import C09 as _C09
+    _C09.r4_check_next_states(ctx, chk, "C13.pre:C09.1")
     C03.r1(ctx, chk, "C13.1")
     from . import C07
     C07.r6_reversed_table(ctx, chk, "C13.pre:C07.6")        # the backward search must treat labels as opaque (an action named "" is an action)
